@@ -1,1 +1,2 @@
 import OsuModel.FileCache
+import OsuModel.TimeIntegration
